@@ -127,22 +127,31 @@ def r08_1(ck, F):
     ck.ok("closure#size", f"{len(seen)} bodies in the closure of {len(ENTRY)} entry points ({unresolved} indirect calls not followed)", None)
     used = set()
     for dp, b in sorted(seen.items()):
-        counters = {}
         fn = mir.strip_generics(b.path)
+        groups = {}
+        counters = {}
         for kind, bb, detail in diverging_sites(b):
-            k = (kind, detail)
-            counters[k] = counters.get(k, 0) + 1
-            key = f"{fn}|{detail}|{counters[k]}"
             cls = classify(b, kind, bb, detail)
             if cls:
-                ck.ok(key, cls, b.loc(bb), nontrivial=False)
+                k = (kind, detail)
+                counters[k] = counters.get(k, 0) + 1
+                ck.ok(f"{fn}|{detail}|class{counters[k]}", cls, b.loc(bb), nontrivial=False)
                 continue
-            ent = allow.get(key)
-            if ent:
-                used.add(key)
-            ck.expect(ent is not None, key, f"listed: {ent['reason'] if ent else ''}",
-                      f"{kind} `{detail}` in {fn} is reachable from a peer-input entry point and is not in "
-                      f"spec/panic_allow.json", b.loc(bb), {"function": b.path, "construct": detail})
+            groups.setdefault(detail, []).append((kind, bb))
+        # the table is matched per (function, construct) by count: helper functions the rules do not know are spliced
+        # into their callers (inline.py), so moving a listed site into a new helper keeps its attribution; a site beyond
+        # the listed number is new
+        for detail, sites in sorted(groups.items()):
+            listed = sorted((k for k in allow if k.startswith(f"{fn}|{detail}|")), key=lambda k: int(k.rsplit("|", 1)[1]))
+            for n, (kind, bb) in enumerate(sites):
+                key = f"{fn}|{detail}|{n + 1}"
+                ent = allow.get(listed[n]) if n < len(listed) else None
+                if ent:
+                    used.add(listed[n])
+                ck.expect(ent is not None, key, f"listed: {ent['reason'] if ent else ''}",
+                          f"{kind} `{detail}` in {fn} is reachable from a peer-input entry point and is not in "
+                          f"spec/panic_allow.json ({len(sites)} such sites, {len(listed)} listed)", b.loc(bb),
+                          {"function": b.path, "construct": detail})
     stale = sorted(set(allow) - used)
     if stale:
         print(f"note: {len(stale)} stale entries in spec/panic_allow.json: {stale[:5]}")
@@ -283,6 +292,43 @@ def r08_3b(ck, F):
                   f"use_credits({mir.show(e)[:70]}) can be zero: such frames are queued for free", b.loc(bb))
 
 
+def r08_3c(ck, F):
+    ck.rule("R08.3c", "reassembly buffers are bounded: DataBuf::try_push appends only under (remaining + len) <= max_size "
+            "(checked addition) and stores that sum; recv_any keeps an accumulated port-request list in self.receiving only "
+            "after its length was compared against self.max_ports; the caller of try_push passes self.max_data_size",
+            "a peer streaming non-final chunks grows the receiver's reassembly buffer without bound (credits are returned "
+            "per chunk, so flow control does not limit a single message)", floor=3)
+    b = F.body("chmux::receiver::DataBuf::try_push")
+    pushes = [bb for bb, t in b.calls("std::collections::VecDeque::push_back")] + [bb for bb, t in b.calls("std::collections::VecDeque::push_front")]
+    ok = bool(pushes)
+    for bb in pushes:
+        ce = conds(b, bb)
+        le = any(e[0] == "bin" and ((e[1] in ("Le", "Lt") and m is True) or (e[1] in ("Gt", "Ge") and m is False)) and
+                 any(x.split(".")[-1] == "max_size" for x in mir.paths_in(e[3])) and
+                 (arith(e[2]) or (None,))[0] == "Add" for e, m in ce)
+        ok = ok and le
+    ck.expect(ok, "DataBuf::try_push#bounded", "push only under remaining + len <= max_size",
+              "DataBuf::try_push appends without comparing the new total against max_size", b.loc(pushes[0]) if pushes else b.loc(0))
+    rd = F.body("chmux::receiver::Receiver::recv_data")
+    tp = [(bb, t) for bb, t in rd.calls("chmux::receiver::DataBuf::try_push")]
+    ok = bool(tp) and all(mir.last_field(rd.expr(t["a"][2])) == "max_data_size" for bb, t in tp)
+    ck.expect(ok, "Receiver::recv_data#limit", "try_push(buf, self.max_data_size)",
+              f"try_push limit is {[mir.show(rd.expr(t['a'][2])) for bb, t in tp]}", rd.loc(tp[0][0]) if tp else rd.loc(0))
+    ra = F.main_body("chmux::receiver::Receiver::recv_any")
+    ext = [bb for bb, t in ra.calls() if (callee(t) or "").split("::")[-1] in ("extend", "append", "push", "extend_from_slice")
+           and "Requests" in mir.show(ra.expr(t["a"][0]))]
+    stores = [bb for bb, i, rv in ra.aggregates("chmux::receiver::Receiving", "Requests")
+              if not (rv["ops"] and mir.calls_in(ra.expr(rv["ops"][0]), "std::vec::Vec::new") and ra.expr(rv["ops"][0])[0] == "call")]
+    if not ext or not stores:
+        raise mir.AnchorMissing("port request accumulation in recv_any")
+    gates = [tb for sb, tb, m, e in switch_edges(ra, lambda e: e[0] == "bin" and e[1] in ("Gt", "Ge", "Le", "Lt") and
+                                                 any(x.split(".")[-1] == "max_ports" for x in mir.paths_in(e))) if (e[1] in ("Gt", "Ge")) == (m is False)]
+    p_ = ra.find_path(ext, stores, avoid=gates) if gates else [ext[0]]
+    ck.expect(p_ is None, "Receiver::recv_any#max-ports", "accumulated requests are kept only after the max_ports comparison",
+              f"recv_any stores the accumulated port requests without comparing their number against max_ports (path {p_})",
+              ra.loc(ext[0]))
+
+
 def r08_4(ck, F):
     ck.rule("R08.4", "the decoder is total: MultiplexMsg::read has an otherwise branch that returns an error, compares "
             "the magic, and from_slice maps decode errors to ChMuxError::Protocol",
@@ -326,7 +372,7 @@ def r08_5(ck, F):
 
 def run(ck, F):
     import c02
-    for r in (r08_1, r08_1b, r08_2, r08_3, r08_3b, r08_4, r08_5):
+    for r in (r08_1, r08_1b, r08_2, r08_3, r08_3b, r08_3c, r08_4, r08_5):
         ck.run_rule(r)
     # shared clauses: the buffering bound rests on the receive-side accounting and on the right limit being wired
     for r in (c02.r02_5, c02.r02_6, c02.r02_7):
